@@ -631,7 +631,7 @@ def id_plan(tier, caps=None):
     q = tier == 'quick'
     plan = []
     for n in (caps or ((1, 2) if q else (1, 2, 3))):
-        plan.append((n, id_programs(n, tier), dict(pb=2 if q else 3, max_exec=(6000 if n < 3 else 2500) if q else 60000)))
+        plan.append((n, id_programs(n, tier), dict(pb=2 if q else 3, max_exec=(6000 if n < 3 else 2500) if q else 25000)))
     return plan
 
 
